@@ -553,6 +553,9 @@ class SimDevice:
             raise SW(0x6A87)
         self._update_total(st)
         rem = st.remaining()
+        if len(data) < sg["req"] and (rem is None or rem > 0):
+            # firmware: APDU_DATA_SIZE(rx) != expected_bytes while more is due
+            raise SW(0x6A87)
         # hostile stop rules
         early = pol.get("early")     # (part name, after n bytes)
         if early and early[0] == st.name and st.received() >= early[1] and \
@@ -569,9 +572,6 @@ class SimDevice:
                 st.requested.append(req)
                 return bytes([CLA, 0x02, sg["part"], req])
             return self._sign_next_part(sg, rec)
-        if len(data) == 0 and (rem is None or rem > 0):
-            # host ran dry before the framing was satisfied
-            raise SW(0x6A87)
         req = self.chunk.next(rem)
         sg["req"] = req
         st.requested.append(req)
@@ -694,6 +694,8 @@ class SimDevice:
             if st.total is None:
                 st.total = rlp_item_total_length(st.data)
             rem = st.remaining()
+            if len(data) < ad["req"] and (rem is None or rem > 0):
+                raise SW(0x6B87)
             is_block = (op == OP_CHUNK)
             stop_at = pol.get("header_stop")   # {block index: bytes} early header stop
             early = False
@@ -725,8 +727,6 @@ class SimDevice:
                         return self._end_of_block(ad, rec, is_advance)
                     ad["expect"] = OP_BMETA
                     return bytes([CLA, cmd, OP_BMETA])
-            if len(data) == 0:
-                raise SW(0x6B87)
             req = self.chunk.next(rem)
             ad["req"] = req
             st.requested.append(req)
